@@ -226,7 +226,26 @@ impl<'a> LoweringManager<'a> {
             }
           })
           .collect_vec();
-        let statements = self.lower_stmt_block(statements);
+        let mut statements = self.lower_stmt_block(statements);
+        // Loop variables are updated one after another by the backends, while their loop values are
+        // meant to be read before any of them is updated. A loop value that reads another loop
+        // variable is therefore copied into a temporary at the end of the body first.
+        let loop_variable_names = loop_variables.iter().map(|v| v.name).collect_vec();
+        let mut loop_variables = loop_variables;
+        for v in &mut loop_variables {
+          if let lir::Expression::Variable(n, t) = &v.loop_value
+            && *n != v.name
+            && loop_variable_names.contains(n)
+          {
+            let temp = self.heap.alloc_temp_str();
+            statements.push(lir::Statement::Cast {
+              name: temp,
+              type_: t.clone(),
+              assigned_expression: v.loop_value.clone(),
+            });
+            v.loop_value = lir::Expression::Variable(temp, t.clone());
+          }
+        }
         let break_collector = if let Some(mir::VariableName { name, type_ }) = break_collector {
           Some((name, self.lower_type(type_)))
         } else {
